@@ -2,6 +2,7 @@
 package main
 
 import (
+	"bytes"
 	"fmt"
 	"io"
 	"strings"
@@ -376,6 +377,86 @@ func subRandom() mon.Sub {
 	}
 }
 
+// subRefusing: "the concatenated unmasked payloads equal the bytes the writer reported as accepted" - also when the
+// destination REFUSES one of the writes (zero bytes taken, an error returned) and accepts everything before and
+// after it: either some call of the history reports an error (what it owes from then on is C16's business), or
+// every call reported success and then nothing may be missing. A refused write that no call ever mentions is a hole
+// in the stream the application believes it has sent.
+func subRefusing() mon.Sub {
+	alpha := wops.Alphabet()
+	return mon.Sub{
+		Name: "refusing-destination", Required: true,
+		N: func(t string) int {
+			if t == "thorough" {
+				return 40000
+			}
+			return 1500
+		},
+		Do: func(c *mon.C) {
+			cfg := randConfig(c)
+			if cfg.N > 60000 {
+				cfg.N = 64
+			}
+			n := 2 + c.Rng.Intn(10)
+			ops := make([]wops.Op, 0, n+1)
+			for i := 0; i < n; i++ {
+				op := alpha[c.Rng.Intn(len(alpha))]
+				if op.Kind == wops.ReadFromErr || op.Kind == wops.ReadFromStall {
+					op = wops.Op{Kind: wops.Write, Sel: op.Sel, K: op.K}
+				}
+				ops = append(ops, op)
+			}
+			ops = append(ops, wops.Op{Kind: wops.Flush})
+			run := func(failAt int, fk error) (rec *xport.Rec, accepted int, sawErr bool, trace []string, built bool) {
+				rec = xport.NewRec()
+				rec.FailAt, rec.ShortN, rec.Err = failAt, 0, fk
+				w, _, ok := build(cfg, rec)
+				if !ok {
+					return rec, 0, false, nil, false
+				}
+				feed := &wops.Feed{}
+				for _, op := range ops {
+					r := wops.Apply(w, op, feed, 11)
+					trace = append(trace, fmt.Sprintf("%s[k=%d] -> n=%d err=%v", r.Op, r.K, r.N, r.Err))
+					if r.Err != nil && r.Err != wsutil.ErrNotEmpty {
+						sawErr = true
+					}
+				}
+				return rec, feed.Pos, sawErr, trace, true
+			}
+			healthy, _, _, _, ok := run(-1, nil)
+			if !ok || len(healthy.Calls) == 0 {
+				return
+			}
+			c.Count(1)
+			j := c.Rng.Intn(len(healthy.Calls))
+			fk := xport.FaultKinds[c.Rng.Intn(len(xport.FaultKinds))]
+			rec, accepted, sawErr, trace, _ := run(j, fk.Err)
+			if len(rec.Calls) <= j {
+				return // the failing call was not reached (sizes depend on the live buffer)
+			}
+			det := map[string]interface{}{"config": cfg.String(), "ops": trace, "refused_destination_call": j, "error_kind": fk.Name, "destination_calls": len(rec.Calls), "bytes_reported_accepted": accepted}
+			if sawErr {
+				c.Classf("refused|reported|%s", fk.Name)
+				return
+			}
+			// no call mentioned the refusal: then the destination holds exactly the accepted bytes, as whole frames
+			frames, consumed, bad := ref.ParseFrames(rec.Bytes())
+			var got []byte
+			for _, f := range frames {
+				got = append(got, f.Payload...)
+			}
+			want := (&wops.Feed{}).Next(accepted)
+			if bad != "" || consumed != len(rec.Bytes()) || !bytes.Equal(got, want) {
+				det["destination_payload_bytes"] = len(got)
+				c.Fail("refused-write/swallowed", fmt.Sprintf("destination call %d was refused (%s) but every Write / ReadFrom / WriteThrough / Flush reported success: %d bytes were reported as accepted, the destination holds %d payload bytes", j, fk.Name, accepted, len(got)), det)
+				return
+			}
+			c.Classf("refused|harmless|%s", fk.Name)
+		},
+	}
+}
+
 // control opcodes and the ControlWriter-sized buffer: the writer itself must
 // still frame correctly (limits are C08's business).
 func subOpcodes() mon.Sub {
@@ -443,6 +524,6 @@ func main() {
 		Rule: "cases: every sequence of depth 3 (quick) / 4 (thorough) over a 30-op alphabet {Write,ReadFrom,WriteThrough} x sizes {0,1,avail-1,avail,avail+1,size,size+1,2size+3} resolved against the live buffer, Grow x 4, FlushFragment, Flush (+ a closing Flush) for 8 configurations (tiny/125/126-boundary buffers, both sides and zero state, DisableFlush, RSV2 extension, wsflate.MessageState, pooled GetWriter); " +
 			"then random sequences of up to 60 ops over all 5 constructors x sizes around the 125/126 and 65535/65536 reservation thresholds, a third of them continued through one or two Writer.Reset calls (new destination, any side, opcode, extension and flush mode; also from the middle of a message) with the model restarted as for a new writer. After EVERY call the recording destination is re-parsed by the reference parser and the contract model is checked (whole frames at call boundary, opcode/fin/rsv/mask per frame, plaintext == position-tagged accepted bytes, clean flush emits nothing, fits => one frame, DisableFlush => nothing before Flush and one frame). Plus long messages: one message cut into 260-860 frames (65836 in two cases of the thorough tier) by WriteThrough / Write+FlushFragment / ReadFrom+FlushFragment on small buffers, then a second message. Plus the one-call helpers WriteMessage / Write{Client,Server}{Message,Text,Binary} x 24 sizes x 3 rounds: exactly one final frame of the given opcode, masked iff client-side, payload == the caller's bytes, caller's slice intact. Built against the poisoning pool shim (a buffer returned to the byte pool is overwritten at once), so a frame that refers to a buffer it already gave back shows the pattern on the wire. evaluations = API calls checked; distinct = (config, first two ops) / (config, length decile, op kinds).",
 		Assumptions: []string{"reference frame parser ref.ParseFrames", "fragment boundaries are left to the implementation except in the three clauses the statement fixes", "payload bytes are a position-tagged stream so loss/duplication/reordering is visible"},
-		Subs:        []mon.Sub{subEnum(), subRandom(), subOpcodes(), subWriteMessage(), subLongMessage()},
+		Subs:        []mon.Sub{subEnum(), subRandom(), subOpcodes(), subWriteMessage(), subLongMessage(), subRefusing()},
 	})
 }
